@@ -73,9 +73,12 @@ func (f *Func) Init(raw string) error {
 	if f.Complete, err = url.PathUnescape(raw); err != nil {
 		return fmt.Errorf("bad function reference: %w", err)
 	}
-	// Update the index in the unescaped string.
-	endPkg += len(f.Complete) - len(raw)
 	if endPkg != -1 {
+		if len(f.Complete) != len(raw) {
+			// Update the index in the unescaped string: each %xx escape located
+			// before it shifts it by two.
+			endPkg -= 2 * strings.Count(raw[:endPkg], "%")
+		}
 		f.ImportPath = f.Complete[:endPkg]
 	}
 	f.Name = f.Complete[endPkg+1:]
